@@ -94,6 +94,10 @@ def cases(tier, seed):
     if tier == "quick":
         for p, route in itertools.product(("composite_tdep", "screening"), ("disk", "chain")):
             out.append(dict(fam="solution", phys=p, route=route, k=1))
+    # without voltage probes (optional records partly absent), all routes
+    for p, route in itertools.product(("static", "screening"), ("disk", "memory", "chain")):
+        out.append(dict(fam="solution", phys=p, route=route, k=2, probes=False))
+    out.append(dict(fam="solution", phys="screening", route="memory", k=2))
     return out
 
 
@@ -457,6 +461,12 @@ def run_solution(case):
     res = CaseResult()
     res.key = case_key(case)
     dev = drivers.tiny(2, terminals=True)
+    if case.get("probes") is False:
+        # a device without voltage probes: no probe records (mu, theta) exist, the other per-step records still do
+        base = dev
+        dev = tdgl.Device(base.name, layer=base.layer.copy(), film=base.film.copy(), terminals=[t.copy() for t in base.terminals], probe_points=None,
+                          length_units=base.length_units)
+        dev.mesh = base.mesh
     dt = 2.0**-5
     phys = case["phys"]
     kw = dict(applied_vector_potential=0.3, terminal_currents={"source": 1.0, "drain": -1.0})
